@@ -29,6 +29,8 @@ pub fn cells(tier: Tier) -> Vec<CellPlan> {
     add(cells::wiring("C01", TickWiring::MaxTickRate(50), 20), 1, 2, 4, 1.0);
     add(cells::two_clients("C01"), 1, 2, 3, 2.0);
     add(cells::split_lossy("C01"), 2, 3, 4, 2.0);
+    add(cells::same_frame("C01"), 1, 2, 3, 2.0);
+    add(cells::three_clients("C01"), 0, 1, 3, 2.0);
     add(cells::vis_empty("C01", Vis::Whitelist), 1, 2, 4, 1.0);
     add(cells::vis_empty("C01", Vis::Blacklist), 1, 2, 4, 1.0);
     v
